@@ -39,7 +39,9 @@ import (
 	fxtypes "github.com/functionx/fx-core/v8/types"
 	"github.com/spf13/viper"
 
+	erc20types "github.com/functionx/fx-core/v8/x/erc20/types"
 	fxgovkeeper "github.com/functionx/fx-core/v8/x/gov/keeper"
+	fxgovtypes "github.com/functionx/fx-core/v8/x/gov/types"
 	migratetypes "github.com/functionx/fx-core/v8/x/migrate/types"
 
 	"fxverif/lib"
@@ -241,11 +243,30 @@ func (h *Hist) Exec(op Op) Op {
 		// governance changes its own periods through the real MsgUpdateParams
 		gp, err := c.App.GovKeeper.Keeper.Params.Get(c.Ctx)
 		lib.Must(err)
-		d1, d2 := time.Duration(op.D1), time.Duration(op.D2)
-		gp.MaxDepositPeriod, gp.VotingPeriod = &d1, &d2
+		if op.D1 > 0 {
+			d1, d2 := time.Duration(op.D1), time.Duration(op.D2)
+			gp.MaxDepositPeriod, gp.VotingPeriod = &d1, &d2
+		}
+		if op.Mode == "kinds" {
+			// make expedited proposals possible (the default genesis names the SDK's placeholder denom for their
+			// deposit) and give one message type a custom voting period, both through the real gov messages
+			ev := 24 * time.Hour
+			gp.ExpeditedVotingPeriod = &ev
+			gp.ExpeditedMinDeposit = sdk.NewCoins(sdk.NewCoin("FX", amt(fx(50000))))
+		}
+		govAuth := authtypes.NewModuleAddress(govtypes.ModuleName).String()
 		err = try(func(ctx sdk.Context) error {
-			_, e := gms.UpdateParams(ctx, &govv1.MsgUpdateParams{Authority: authtypes.NewModuleAddress(govtypes.ModuleName).String(), Params: gp})
-			return e
+			if _, e := gms.UpdateParams(ctx, &govv1.MsgUpdateParams{Authority: govAuth, Params: gp}); e != nil {
+				return e
+			}
+			if op.Mode == "kinds" {
+				week := 7 * 24 * time.Hour
+				_, e := gms.UpdateCustomParams(ctx, &fxgovtypes.MsgUpdateCustomParams{Authority: govAuth,
+					MsgUrl:       sdk.MsgTypeURL(&erc20types.MsgToggleTokenConversion{}),
+					CustomParams: fxgovtypes.CustomParams{DepositRatio: "0.000000000000000000", VotingPeriod: &week, Quorum: "0.250000000000000000"}})
+				return e
+			}
+			return nil
 		})
 		h.cur, op.Res = nil, res(err)
 		h.setCfg()
@@ -361,6 +382,13 @@ func (h *Hist) Exec(op Op) Op {
 			return e
 		})
 		h.cur, op.Res = nil, res(err)
+		if err == nil && op.Dt < pre.Height && h.cw.follow < h.cw.followLimit+10 {
+			n := len(h.cw.items)
+			h.cw.Add(pre, fmt.Sprintf("CSlashUbd %s %d %s", z(h.id(op.V)), op.Dt, zb(sdkmath.LegacyNewDecWithPrec(5, 2).BigInt())), "OOk", h.snap(), h.cfg)
+			if len(h.cw.items) > n {
+				h.rep.Count("follow-case:slash")
+			}
+		}
 		h.mon.AfterSlash(op, pre, h.snap(), err)
 	case "submit":
 		var pre *Snap
@@ -368,12 +396,30 @@ func (h *Hist) Exec(op Op) Op {
 			pre = h.snap()
 		}
 		err := try(func(ctx sdk.Context) error {
-			_, e := gms.SubmitProposal(ctx, &govv1.MsgSubmitProposal{Messages: textMsgs(), InitialDeposit: sdk.NewCoins(sdk.NewCoin("FX", amt(op.Amt))), Proposer: h.acc(op.A).String(), Title: "title", Summary: "description"})
+			msgs := textMsgs()
+			if op.Denom == "toggle" { // a message type with a custom (7-day) voting period
+				msgs = toggleMsgs()
+			}
+			_, e := gms.SubmitProposal(ctx, &govv1.MsgSubmitProposal{Messages: msgs, InitialDeposit: sdk.NewCoins(sdk.NewCoin("FX", amt(op.Amt))), Proposer: h.acc(op.A).String(), Title: "title", Summary: "description", Expedited: op.Mode == "exp"})
 			return e
 		})
 		h.cur, op.Res = nil, res(err)
 		if err == nil && !h.quiet {
-			h.cw.Add(pre, fmt.Sprintf("CSubmit %s %s", z(h.id(op.A)), zb(amt(op.Amt).BigInt())), "OOk", h.snap(), h.cfg)
+			post := h.snap()
+			var np PropRec
+			for _, p := range post.Props {
+				if p.ID == pre.NextPid {
+					np = p
+				}
+			}
+			if np.Status == 2 { // voting started at once: the applicable period is the elapsed one, the opening deposit was met
+				np.VP = np.VoteEnd - pre.Now
+			}
+			ex := "0"
+			if np.Exp {
+				ex = "1"
+			}
+			h.cw.Add(pre, fmt.Sprintf("CSubmit %s %s %s %s %s", z(h.id(op.A)), zb(amt(op.Amt).BigInt()), ex, z(np.VP), zb(np.Min)), "OOk", post, h.cfg)
 		}
 	case "deposit":
 		pre := h.snap()
@@ -399,7 +445,7 @@ func (h *Hist) Exec(op Op) Op {
 		pre := h.snap()
 		t := c.Time.Add(time.Duration(op.Dt))
 		// which closing proposals burn their deposits: the real tally on a discarded branch
-		var burns []string
+		var burns, converts []string
 		cctx, _ := c.Ctx.CacheContext()
 		cctx = cctx.WithBlockTime(t)
 		rng := collections.NewPrefixUntilPairRange[time.Time, uint64](t)
@@ -408,8 +454,12 @@ func (h *Hist) Exec(op Op) Op {
 			if e != nil {
 				return false, nil
 			}
-			if _, burn, _, e := c.App.GovKeeper.Tally(cctx, p); e == nil && burn {
-				burns = append(burns, fmt.Sprint(k.K2()))
+			if passes, burn, _, e := c.App.GovKeeper.Tally(cctx, p); e == nil {
+				if p.Expedited && !passes {
+					converts = append(converts, fmt.Sprint(k.K2()))
+				} else if burn {
+					burns = append(burns, fmt.Sprint(k.K2()))
+				}
 			}
 			return false, nil
 		}))
@@ -421,7 +471,7 @@ func (h *Hist) Exec(op Op) Op {
 			return op
 		}
 		post := h.snap()
-		h.cw.Add(pre, fmt.Sprintf("CEndBlock %s %s %s", z(ns(t)), z(post.Now), lib.List(burns)), "OOk", post, h.cfg)
+		h.cw.Add(pre, fmt.Sprintf("CEndBlock %s %s %s %s", z(ns(t)), z(post.Now), lib.List(burns), lib.List(converts)), "OOk", post, h.cfg)
 		h.mon.AfterBlock(op, pre, post, ns(t))
 	case "migrate":
 		pre := h.snap()
@@ -648,6 +698,12 @@ func textMsgs() []*codecAny {
 	lc, err := govv1.NewLegacyContent(content, authtypes.NewModuleAddress(govtypes.ModuleName).String())
 	lib.Must(err)
 	anys, err := sdktx.SetMsgs([]sdk.Msg{lc})
+	lib.Must(err)
+	return anys
+}
+
+func toggleMsgs() []*codecAny {
+	anys, err := sdktx.SetMsgs([]sdk.Msg{&erc20types.MsgToggleTokenConversion{Authority: authtypes.NewModuleAddress(govtypes.ModuleName).String(), Token: "nonexistent"}})
 	lib.Must(err)
 	return anys
 }
